@@ -423,8 +423,14 @@ class Check:
         def clean(t):
             # one printable line: control and non-ASCII bytes escaped
             return "".join(ch if 32 <= ord(ch) < 127 else "\\x%02x" % (ord(ch) & 0xff) for ch in str(t).replace("\n", " ").replace("\r", " "))
+        def say(line):
+            try:
+                print(line)
+                sys.stdout.flush()
+            except BrokenPipeError:
+                pass
         for cls, what in sorted(self.known_seen.items()):
-            print("KNOWN-FINDING: property=%s class=%s %s" % (self.pid, cls, clean(what)[:400]))
+            say("KNOWN-FINDING: property=%s class=%s %s" % (self.pid, cls, clean(what)[:400]))
         for cls in sorted(self.findings):
             if cls not in self.known_seen:
                 self.notes.append("listed finding %s was not reproduced in this run" % cls)
@@ -433,8 +439,8 @@ class Check:
             if path in seen:
                 continue
             seen.add(path)
-            print("VIOLATION property=%s replay=%s%s" % (self.pid, path, " no-failing-input-found" if nofail else ""))
-            print("  " + clean(what.splitlines()[0] if what else "")[:300])
+            say("VIOLATION property=%s replay=%s%s" % (self.pid, path, " no-failing-input-found" if nofail else ""))
+            say("  " + clean(what.splitlines()[0] if what else "")[:300])
         ev = {
             "property_id": self.pid, "tier": self.tier, "seed": self.seed, "level": "proof",
             "coverage": self.cov, "assumptions": self.assumptions + self.notes,
